@@ -136,6 +136,18 @@ def rows_equal(got_rows, exp_rows, dtype=None):
     return None
 
 
+def lists_same(a, b):
+    """nested python lists (peek results) equal, NaN == NaN"""
+    if len(a) != len(b):
+        return False
+    for x, y in zip(a, b):
+        if len(x) != len(y):
+            return False
+        if x != y and not same_array(np.array(x), np.array(y), dtype=False):
+            return False
+    return True
+
+
 def ragged_rows(ra):
     """rows of a RaggedArray as numpy arrays, read through the public API on a clone"""
     c = copy.copy(ra)
